@@ -75,7 +75,11 @@ func explore(r *runner.Run, i, n int, deadline time.Time) *shardReply {
 	distinct := map[string]struct{}{}
 	failed := map[string]int{}
 	idx, hidx := -1, -1
+	only := os.Getenv("VERIF_C07_ONLY") // development aid: run one sweep only (header, layers, change, unicode, ..., bounded)
 	generate(r, func(j job) bool {
+		if only != "" && !((j.Hist != nil && only == "bounded") || (len(j.Cases) > 0 && j.Cases[0].Sweep == only)) {
+			return true
+		}
 		if j.Hist != nil { // history trees are dealt out one by one, case batches in sets of |backends| x |flows|
 			hidx++
 			if hidx%n != i {
@@ -295,14 +299,19 @@ func TestCheck(t *testing.T) {
 		"max_depth {1,2,3} x drop_policy {drop_oldest,reject} x delivered_retention {off,on} (+ memory retained-items pressure limit 1, max_depth {1,2}); every operation sequence of length <= 5 (memory) / <= 4 (sqlite) over {I,P1,P2,P3,Pex,Bdup,SdupO,SdupN,D,A,N} (push: enqueue operations only, length <= 4)"))
 	r.Set("layer_routes", layerSummary())
 	r.Set("layer_header_sets", len(layerHeaderSets(r.Thorough())))
-	r.Set("rule", "nested loops: sweep{body,header,layers,unicode,publish-header,boundary} x case x way-in{ingress raw HTTP/1.1, admin publish payload_b64, Store.Enqueue (unicode sweep)} x flow{pull http>grpc, pull grpc>http, push} x backend{memory,sqlite}; "+
+	r.Set("change_histories", changeSummary(r.Thorough()))
+	r.Set("rule", "nested loops: sweep{body,header,layers,change,unicode,publish-header,boundary} x case x way-in{ingress raw HTTP/1.1, admin publish payload_b64, Store.Enqueue (unicode sweep)} x flow{pull http>grpc, pull grpc>http, push} x backend{memory,sqlite}; "+
 		"unicode sweep: first and last code point of every Unicode general category in the BMP and above U+FFFF plus the JSON/Go escaping boundary code points, as header value (embedded and alone) and as payload; "+
 		"layers sweep: route configuration (layer_routes: auth forward in every option combination and answer class, auth basic, auth hmac, rate_limit, max_body, max_headers, stacks) x header set (every line atom alone, entity headers Content-Type / Content-Encoding / Expect / comma value alone and combined) x framing {Content-Length, chunked, chunked+declared trailer} x body sizes {0,1,5, limit-1, limit, limit+1, 4*limit+1 for every configured body_limit / max_body, a gzip stream} x credentials {valid, wrong, none}; the auth service is an in-memory RoundTripper that records the sub-request; "+
+		"change sweep: configuration histories of one route in a running application (change_histories): for every option dimension of the layer routes every ordered pair of its values on a carrier route, boot with A, two requests, production reload (VerifApp.Reload) to B"+
+		runner.Pick(r, "", ", every chain of two changes within a dimension (incl. B>A>B and A>A'>B), every ordered pair of dimensions as a chain, every single-option pair that ends in a route kind of the layer table")+
+		", and for every layer route a management mutation through the Admin API (PUT endpoint mapping: the application rewrites and reloads its file); then header sets {none, sensitive+entity, repeated name"+runner.Pick(r, "", ", single, entity pair, mixed")+"} x framing x body sizes around every limit of every configuration of the history x credentials, judged with the reference of the configuration in force when the request was sent; every reload changes one option of one route in the whole file; "+
 		"bounded-queue family: every operation sequence within bounded_queue_bounds on a queue with queue_limits, every message visible after every operation and in the delivery flow afterwards is compared (which messages survive is not judged); "+
 		"every accepted message is observed at admin list, first delivery, nack+redelivery, (sqlite) close+reopen then two more deliveries; one evaluation = one observation or one accept/reject decision compared with the reference; "+
 		"distinct = (way in, route, framing, path out, phase, backend, body class, header atom set, verdict); non-trivial = the case went through a real enqueue and a real delivery or a real rejection")
 	r.Assume("Host, Content-Length, Transfer-Encoding and Trailer are message framing: they need not be stored, but a stored one must have been received and carry the received value (framing-value / framing-extra); a declared trailer field is treated the same way")
 	r.Assume("layers sweep: whether a route's rate limiter, header budget (max_headers within reach of the header set), auth service answer other than 2xx, or wrong/missing credentials refuse a request is the contract of that layer (C08/C12) and only counted (layer_refusals_not_judged, layer_responses_<status>); judged are: valid credentials + body within max_body on a route whose limiter/header budget is out of reach => accepted, body over max_body => refused, refused => never visible, accepted => byte-identical payload and reference headers")
+	r.Assume("change sweep: which configuration is in force after a step follows docs/configuration.md (Hot Reload): route auth settings, rate limits, route-level max_body / max_headers, match rules and management labels are applied live, a change of deliver signing is rejected and the previous configuration stays active (the harness then puts the file back, as an operator would); the answer of Reload is cross-checked against that rule (infrastructure error otherwise) and never selects the reference; after SQLite close + reopen the application boots from the file on disk as the history left it (incl. the file the application wrote itself)")
 	r.Assume("auth hmac routes verify against the wall clock: the request is signed with the current second when it is sent (an input, never an oracle); of the forward-auth sub-request only 'body not longer than body_limit' is required, what else it carries is counted (layer_fwd_subrequest_*)")
 	r.Assume("push: the request seen by the target must carry every stored header of the message with the reference value, no sensitive header with a received value, and otherwise only framing (Host, Content-Length, Transfer-Encoding) or the deliverer's/transport's own headers: User-Agent, Accept-Encoding, Content-Type, X-Hookaido-Signature, X-Hookaido-Timestamp (sign hmac defaults; signing is not configured here), Traceparent, Tracestate, Baggage; any other header is a violation (header-foreign)")
 	r.Assume("publish: header names are compared after canonicalisation (the property defines canonicalisation for ingress; publish stores the caller's JSON map), Authorization/Cookie are not sent through publish (the strip rule is stated for ingress)")
